@@ -24,6 +24,14 @@ Next == /\ l <= Len(Rec)
                 IF \/ ev.rc # 0 /\ ev.rc < 128 /\ ~ev.panicked /\ ~ev.outputs_exist
                    \/ ev.rc \in {0, cfg.E} /\ ~ev.panicked
                 THEN TRUE ELSE Why("refused_or_processed", "refused before any output, or processed", [rc |-> ev.rc, outputs |-> ev.outputs_exist, panicked |-> ev.panicked])
+             \* an invocation shape with the verdict of Options!Valid: a valid one is processed (status 0 or the -E value, the requested statistics file
+             \* exists), an invalid one is refused (another status, not a signal, no panic) before anything is written or printed
+             [] ev.kind = "shape" ->
+                IF ev.valid
+                  THEN IF ev.rc \in {0, cfg.E} /\ ~ev.panicked /\ (ev.want_stats => ev.stats_exist) THEN TRUE
+                       ELSE Why("valid_shape_processed", "status 0 / -E value, statistics written", [rc |-> ev.rc, stats |-> ev.stats_exist, panicked |-> ev.panicked])
+                  ELSE IF ev.rc \notin {0, 7} /\ ev.rc < 128 /\ ~ev.panicked /\ ~ev.outputs_exist THEN TRUE
+                       ELSE Why("invalid_shape_refused", "refused before any output", [rc |-> ev.rc, outputs |-> ev.outputs_exist, panicked |-> ev.panicked])
              \* unreadable or unrecognisable input: non-zero status
              [] ev.kind = "badinput" -> IF ev.rc # 0 THEN TRUE ELSE Why("refused", "non-zero", ev.rc)
         /\ l' = l + 1
